@@ -96,6 +96,68 @@ theorem connect_stream_trailers_roundtrip (c : HConn) (cfg : CCfg) (p : HProg)
   have hw2 : (mergeHeaders [] p.trailer).wf := mergeHeaders_wf _ _ Header.nil_wf
   rw [vals_copy _ hw2, vals_copy _ hT]
 
+/-- keys of a merge come from one of the two maps -/
+theorem keys_mergeHeaders (a b : Header) (x : Bytes) (h : x ∈ (mergeHeaders a b).map (·.1)) :
+    x ∈ a.map (·.1) ∨ x ∈ b.map (·.1) := by
+  induction b generalizing a with
+  | nil => exact Or.inl (by simpa [mergeHeaders] using h)
+  | cons p rest ih =>
+    simp only [mergeHeaders, List.foldl_cons] at h
+    rcases ih _ h with h1 | h1
+    · rw [Header.keys_put] at h1
+      rcases h1 with h1 | h1
+      · exact Or.inr (by simp [h1])
+      · exact Or.inl h1
+    · exact Or.inr (by simp [h1])
+
+/-- **connect_stream_error_metadata**: a streaming Connect handler that sets trailers and then
+    fails with an error carrying metadata: under every key the client's error shows the response
+    headers' values, then the handler's trailer values, then the error's own - all of them, in
+    order, also when trailers and error use the *same* key (nothing overwrites anything). -/
+theorem connect_stream_error_metadata (c : HConn) (cfg : CCfg) (p : HProg) (e : CErr)
+    (hproto : cfg.proto = .connect) (hmax : cfg.max = 0) (hpool : c.pool = none)
+    (hr : p.result = some (.coded e)) (h0 : e.code ≠ 0)
+    (hT : p.trailer.wf) (hM : e.md.wf)
+    (hTc : ∀ q ∈ p.trailer, canonicalKey q.1 = q.1) (hMc : ∀ q ∈ e.md, canonicalKey q.1 = q.1)
+    (henc : (serveConnectStream c p).header.get Gen.hdrConnectStreamEncoding = []) (k : Bytes) :
+    ∃ r, (clientConnectStream cfg (serveConnectStream c p)).result = some r ∧ r.code = e.code ∧
+      r.md.vals k = (serveConnectStream c p).header.vals k ++ (p.trailer.vals k ++ e.md.vals k) := by
+  have hstatus : (serveConnectStream c p).status = 200 := rfl
+  have hbody : (serveConnectStream c p).body =
+      p.sends.map (BodyItem.frame 0) ++ [.endStream (some { code := e.code, msg := e.msg, details := e.details })
+        (mergeHeaders p.trailer e.md)] := by
+    simp only [serveConnectStream, hr, toWire, wireOf]
+    congr 1
+    apply List.map_congr_left
+    intro m _
+    simp [msgFrame, hpool]
+  have hk : encodingKnown cfg [] = true := by simp [encodingKnown]
+  simp only [clientConnectStream, hstatus, ne_eq, not_true_eq_false, if_false, henc, hk, Bool.not_true, Bool.false_eq_true,
+    hbody, C02.recvItems_plain cfg _ hmax, recvItems, hproto, if_true, List.append_nil, fixCode, h0]
+  refine ⟨_, rfl, rfl, ?_⟩
+  have hmw : (mergeHeaders p.trailer e.md).wf := mergeHeaders_wf _ _ hT
+  have hmc : ∀ q ∈ mergeHeaders p.trailer e.md, canonicalKey q.1 = q.1 := by
+    intro q hq
+    have hx : q.1 ∈ (mergeHeaders p.trailer e.md).map (·.1) := List.mem_map_of_mem hq
+    rcases keys_mergeHeaders _ _ _ hx with h1 | h1
+    · obtain ⟨q', hq', he⟩ := List.mem_map.mp h1
+      rw [← he]; exact hTc q' hq'
+    · obtain ⟨q', hq', he⟩ := List.mem_map.mp h1
+      rw [← he]; exact hMc q' hq'
+  rw [canonicalize_canonical _ hmc]
+  have hw1 : (mergeHeaders [] (mergeHeaders p.trailer e.md)).wf := mergeHeaders_wf _ _ Header.nil_wf
+  have hw2 : (mergeHeaders [] (mergeHeaders [] (mergeHeaders p.trailer e.md))).wf := mergeHeaders_wf _ _ Header.nil_wf
+  have hwh : (mergeHeaders [] (serveConnectStream c p).header).wf := mergeHeaders_wf _ _ Header.nil_wf
+  rw [vals_mergeHeaders _ _ hw2, vals_copy _ hwh, vals_copy _ hw1, vals_copy _ hmw, vals_mergeHeaders _ _ hM]
+  congr 1
+  have hhw : (serveConnectStream c p).header.wf := by
+    show (mergeHeaders _ p.header).wf
+    apply mergeHeaders_wf
+    by_cases hc : c.respCompression = Gen.compressionIdentity
+    · simp only [hc, if_true, Header.wf, List.append_nil, List.cons_append, List.nil_append, List.map_cons, List.map_nil]; decide
+    · simp only [hc, if_false, Header.wf, List.cons_append, List.nil_append, List.map_cons, List.map_nil]; decide
+  exact vals_copy _ hhw k
+
 /-- response headers of a Connect stream: the handler's values under each non-reserved key -/
 theorem connect_stream_headers_sent (c : HConn) (p : HProg) (hw : p.header.wf) (k : Bytes)
     (hk : k ≠ Gen.hdrContentType ∧ k ≠ Gen.hdrConnectStreamEncoding ∧ k ≠ Gen.hdrConnectStreamAcceptEncoding) :
